@@ -229,6 +229,10 @@ def gen_configs(seed: int, n: int, nx_max: int, families: str = "all") -> list[d
             c["shift"] = (0.015625, 0.5, 64.0)[(i // 7) % 3]
         if i % 11 == 6 and not c.get("time_box") and not c.get("shift"):
             c["grid"] = "intdays16"
+        if i % 10 == 7 and not c.get("repress") and not c.get("nx_dtype"):
+            c["renx"] = 7 if c["nx"] != 7 else 11
+        if c["kind"] == "single" and c.get("sched", "none") != "none" and not c.get("sched_int") and i % 4 == 2:
+            c["sched_box"] = "series"
     return cfgs
 
 
